@@ -41,20 +41,21 @@ type c08Cfg struct {
 	reader   int  // rkPlain, rkSeek, rkBufio
 	chunk    int  // 0 = unlimited
 	sched    []int
+	eofData  bool // the last bytes arrive together with io.EOF
 }
 
 func (c c08Cfg) String() string {
-	return fmt.Sprintf("records of %d bytes, explicit size=%v, %s reader, chunk=%d, first reads=%v", 188+c.k, c.explicit, rkNames[c.reader], c.chunk, c.sched)
+	return fmt.Sprintf("records of %d bytes, explicit size=%v, %s reader, chunk=%d, first reads=%v, EOF with the last bytes=%v", 188+c.k, c.explicit, rkNames[c.reader], c.chunk, c.sched, c.eofData)
 }
 
 // c08Outputs returns the canonical NextPacket and NextData sequences under a configuration.
 func c08Outputs(data []byte, c c08Cfg) (pkts []string, items []string, errs []string) {
 	mk := func() (io.Reader, []func(*astits.Demuxer)) {
-		fr := &faultReader{data: data, failAt: -1, chunk: c.chunk, sched: c.sched}
+		fr := &faultReader{data: data, failAt: -1, chunk: c.chunk, sched: c.sched, eofData: c.eofData}
 		var r io.Reader = fr
 		switch c.reader {
 		case rkSeek:
-			if c.chunk == 0 && len(c.sched) == 0 {
+			if c.chunk == 0 && len(c.sched) == 0 && !c.eofData {
 				r = bytes.NewReader(data)
 			} else {
 				r = seekFaultReader{fr}
@@ -93,20 +94,31 @@ func c08Outputs(data []byte, c c08Cfg) (pkts []string, items []string, errs []st
 }
 
 func TestC08Reading(t *testing.T) {
-	rec := obs.NewRecorder("C08", "reading", "rapid: well-formed streams (>= 2 packets, a null packet first) x ~25 configurations each: read schedules {unlimited, fixed chunk 1..400, random first reads} x reader {plain, seekable, bufio.Reader} x {explicit size, auto-detection} x record size 188+k (k in 0..4 with auto-detection, k in {0,4,16,1..64} explicit; sync byte + k extra bytes + 187 bytes); oracle: the NextPacket and NextData sequences equal those of the reference configuration (explicit 188, bytes.Reader, unfragmented); for a plain non-seekable reader with auto-detection (documented to consume the detection window) the chunked run must equal the unchunked run and every returned packet must be an unaltered packet of the stream in order; non-trivial = every case; distinct by stream bytes")
+	rec := obs.NewRecorder("C08", "reading", "rapid: well-formed streams (>= 2 packets, a null packet first) x ~25 configurations each: read schedules {unlimited, fixed chunk 1..400, random first reads; io.EOF reported with the last bytes or by a separate Read} x reader {plain, seekable, bufio.Reader} x {explicit size, auto-detection} x record size 188+k (k in 0..4 with auto-detection, k in {0,4,16,1..64} explicit; sync byte + k extra bytes + 187 bytes); oracle: the NextPacket and NextData sequences equal those of the reference configuration (explicit 188, bytes.Reader, unfragmented); for a plain non-seekable reader with auto-detection (documented to consume the detection window) the chunked run must equal the unchunked run and every returned packet must be an unaltered packet of the stream in order; non-trivial = every case; distinct by stream bytes")
 	defer rec.Flush()
 	rapid.Check(t, func(t *rapid.T) {
 		o := defaultStreamOpts()
 		o.smallPSI, o.maxPESLen, o.maxUnits = true, 700, 3
 		m := drawStream(t, o)
 		// a null packet first: its tail bytes (0xFF) keep the detection window free of spurious sync bytes
-		stream := append(ref.NullPacket(0xff).MustEncode(), m.bytes()...)
+		stream := ref.NullPacket(0xff).MustEncode()
+		if gen.Chance(t, 30, "syncbytes") {
+			// then a packet whose header is full of 0x47 bytes (PID 0x0747 with payload_unit_start, adaptation_field_length
+			// 0x47): the packet size is given by the FIRST sync byte after 188 bytes, not by any later one
+			body := bytes.Repeat([]byte{0x47}, 184-72)
+			body[0], body[1], body[2] = 0x47, 0x00, 0x02 // neither a PES start code nor a known table
+			stream = append(stream, (&ref.TSPacket{PID: 0x0747, PUSI: true, HasAF: true, AF: &ref.AF{Stuffing: 0x47 - 1}, HasPayload: true, Payload: body}).MustEncode()...)
+			rec.Class("second_packet_full_of_sync_bytes")
+		}
+		stream = append(stream, m.bytes()...)
 		refP, refD, refE := c08Outputs(stream, c08Cfg{explicit: true, reader: rkSeek})
 		if len(refE) > 0 {
 			t.Fatalf("reference configuration reports errors: %v\n%s", refE, m.describe())
 		}
 		nconf := 0
+		eofs := rapid.SliceOfN(rapid.Bool(), 32, 32).Draw(t, "eofwithdata")
 		try := func(c c08Cfg, extra func(int) byte) {
+			c.eofData = eofs[nconf%32]
 			data := frame(stream, c.k, extra)
 			gp, gd, ge := c08Outputs(data, c)
 			nconf++
@@ -238,7 +250,7 @@ func TestC08Boundaries(t *testing.T) {
 }
 
 func c08Reader(data []byte, c c08Cfg) (io.Reader, []func(*astits.Demuxer)) {
-	fr := &faultReader{data: data, failAt: -1, chunk: c.chunk, sched: c.sched}
+	fr := &faultReader{data: data, failAt: -1, chunk: c.chunk, sched: c.sched, eofData: c.eofData}
 	var r io.Reader = fr
 	switch c.reader {
 	case rkSeek:
